@@ -70,7 +70,12 @@ func VP_C09_nbt() {
 	v1, e1 := dec(r1)
 	vp.Assume(e1 == nil)
 	if vp.Choice(2) == 0 {
-		r2 := &vpPlainReader{b: b, chunk: 1 + vp.Choice(2)}
+		r2 := &vpCutReader{b: b}
+		if k := vp.Choice(4); k == 3 {
+			r2.once = true
+		} else {
+			r2.chunk = 1 + k
+		}
 		v2, e2 := dec(reader{r2})
 		vp.Assert(e2 == nil, "same error-ness under fragmentation")
 		vp.Assert(r2.pos == r1.pos, "same residual stream under fragmentation")
@@ -86,12 +91,14 @@ func VP_C09_nbt() {
 }
 
 // vpCutReader is a plain io.Reader (no ReadByte) that delivers at most chunk
-// bytes per call (0 = unlimited) and never crosses the offset cut in one call.
+// bytes per call (0 = unlimited); with once set, exactly one multi-byte call
+// of the whole run - any of them - is cut short after any number of bytes
+// (chosen lazily at the calls the cut can actually split).
 type vpCutReader struct {
 	b     []byte
 	pos   int
 	chunk int
-	cut   int
+	once  bool
 }
 
 func (r *vpCutReader) Read(p []byte) (int, error) {
@@ -108,8 +115,10 @@ func (r *vpCutReader) Read(p []byte) (int, error) {
 	if r.chunk > 0 && n > r.chunk {
 		n = r.chunk
 	}
-	if r.pos < r.cut && r.pos+n > r.cut {
-		n = r.cut - r.pos
+	if r.once && n > 1 {
+		if k := vp.Choice(n); k > 0 {
+			n, r.once = k, false
+		}
 	}
 	copy(p, r.b[r.pos:r.pos+n])
 	r.pos += n
@@ -117,7 +126,7 @@ func (r *vpCutReader) Read(p []byte) (int, error) {
 }
 
 // vpSchedule picks a delivery schedule for a stream of n bytes: fixed chunks of
-// 1, 2, 3 or 5 bytes, or contiguous delivery with one cut at any offset.
+// 1, 2, 3 or 5 bytes, or contiguous delivery with one short read anywhere.
 func vpSchedule(b []byte) *vpCutReader {
 	switch vp.Choice(5) {
 	case 0:
@@ -129,7 +138,7 @@ func vpSchedule(b []byte) *vpCutReader {
 	case 3:
 		return &vpCutReader{b: b, chunk: 5}
 	}
-	return &vpCutReader{b: b, cut: 1 + vp.Choice(len(b)-1)}
+	return &vpCutReader{b: b, once: true}
 }
 
 // vpFailWriter accepts limit bytes and fails the write that crosses the limit;
@@ -160,7 +169,6 @@ func (w *vpFailWriter) Write(p []byte) (int, error) {
 func VP_C09_typed() {
 	v := vpMkDoc()
 	doc := append([]byte{TagCompound}, vpRefDoc(v)...)
-	vp.SizeBound(8)
 	if vp.Choice(2) == 0 {
 		r := vpSchedule(append(append([]byte{}, doc...), 0x31))
 		d := NewDecoder(r)
